@@ -104,6 +104,12 @@ switchcase(struct switchcases *cases, unsigned long long i, struct block *b)
 {
 	struct switchcase *c;
 
+	/* convert to the promoted type of the controlling expression (C11 6.8.4.2p5) */
+	if (cases->type->size < 8) {
+		i &= 0xffffffff;
+		if (cases->type->u.basic.issigned && i & 0x80000000)
+			i |= 0xffffffff00000000;
+	}
 	c = treeinsert(&cases->root, i, sizeof(*c));
 	if (!c->node.new)
 		error(&tok.loc, "multiple 'case' labels with same value");
